@@ -3,7 +3,10 @@ import random
 
 # literal classes of the statement's grammar that contain no separator characters
 CORE = ["int", "neg_int", "plus_int", "zero", "float", "neg_float", "dot_float", "float_dot", "sci", "sci_neg",
-        "sci_cap", "neg_zero", "true", "false", "none", "sq_string", "dq_string", "auto", "auto_po2"]
+        "sci_cap", "neg_zero", "true", "false", "none", "sq_string", "dq_string", "auto", "auto_po2",
+        # the rest of Python's float grammar: explicit + exponent, fraction with exponent, leading dot / trailing dot
+        # with exponent, the repr() of large and tiny magnitudes
+        "sci_plus", "sci_frac", "sci_dot", "sci_cap_sign", "repr_big", "repr_tiny"]
 # classes the statement also names (number lists, strings in general) but that carry separators
 EXT = ["list_commas", "list_commas_space", "list_single", "string_with_comma", "string_with_space",
        "string_with_paren", "empty_string", "string_with_equals", "nested_call", "tuple", "hex_int", "underscore_int"]
@@ -32,6 +35,18 @@ def literal(kind, rnd):
     return "-%d.%de-%d" % (rnd.randint(1, 9), rnd.randint(0, 9), rnd.randint(1, 5))
   if kind == "sci_cap":
     return "%dE%d" % (rnd.randint(1, 9), rnd.randint(0, 5))
+  if kind == "sci_plus":
+    return "%s%de+%d" % (rnd.choice(["", "-"]), rnd.randint(1, 9), rnd.randint(0, 16))
+  if kind == "sci_frac":
+    return "%d.%de%s%d" % (rnd.randint(1, 9), rnd.randint(0, 99), rnd.choice(["", "+", "-"]), rnd.randint(0, 6))
+  if kind == "sci_dot":
+    return rnd.choice([".%de%d" % (rnd.randint(1, 9), rnd.randint(0, 3)), "%d.e%d" % (rnd.randint(1, 9), rnd.randint(0, 3))])
+  if kind == "sci_cap_sign":
+    return "%d.%dE%s%d" % (rnd.randint(1, 9), rnd.randint(0, 9), rnd.choice(["+", "-"]), rnd.randint(1, 5))
+  if kind == "repr_big":
+    return repr(float(rnd.randint(1, 9)) * 10.0 ** rnd.randint(16, 22))
+  if kind == "repr_tiny":
+    return repr(float(rnd.randint(1, 9)) * 10.0 ** -rnd.randint(5, 12))
   if kind == "neg_zero":
     return "-0.0"
   if kind == "true":
